@@ -10,6 +10,7 @@ mod c02;
 mod c03;
 mod c04;
 mod c05;
+mod c06;
 mod c10;
 mod c11;
 mod c12;
@@ -86,6 +87,8 @@ fn registry(property: &str) -> Option<(RunFn, ReplayFn)> {
         "C03" => Some((c03::run, c03::replay)),
         "C04" => Some((c04::run, c04::replay)),
         "C05" => Some((c05::run_c05, c05::replay_c05)),
+        "C06" => Some((c06::run_c06, c06::replay_c06)),
+        "C07" => Some((c06::run_c07, c06::replay_c07)),
         "C10" => Some((c10::run, c10::replay)),
         "C11" => Some((c11::run, c11::replay)),
         "C12" => Some((c12::run, c12::replay)),
